@@ -101,6 +101,14 @@ class Layout:
                 tagset.append(t)
         self.tags = tagset
         self.extra_tags = list(extra_tags)
+        # PROVISO of the property as checked: a delete_match pattern that matches a key of the reserved namespace '_tag:' (e.g.
+        # '*:1' matches '_tag:tag:1') deletes tag sets, after which delete_tags cannot find their members - such patterns
+        # are excluded from the histories (like the ':' proviso of C03 / C04); this guard enforces it for every layout
+        for pat in self.patterns:
+            rx = re.compile(".*".join(re.escape(x) for x in pat.split("*")), re.DOTALL)
+            hit = [t for t in self.tags if rx.fullmatch("_tag:" + t)]
+            if hit or rx.fullmatch("_tag:"):
+                raise HarnessError(f"layout {name}: pattern {pat!r} reaches the reserved '_tag:' namespace ({hit[:2]})")
 
     # -- the harness's own reading of the registry: which tags does key K get?  (independent of cashews:
     #    plain substitution of the key's own field values into the tag template)
@@ -1098,9 +1106,47 @@ def not_judged_probes() -> dict:
         except Exception as exc:  # noqa: BLE001
             out["delete_tags_in_rolled_back_transaction_loses_membership"] = f"X:{type(exc).__name__}"
         await cache.close()
+        cache = Cache()
+        cache.setup("mem://?size=1000&check_interval=0")
+        await cache.init()
+        await cache.set("a:1", 1, tags=["tag:1"])
+        await cache.set("b:2", 2, tags=["tag:1"])
+        await cache.delete_match("*:1")       # also matches the internal key '_tag:tag:1': the tag set is deleted
+        await cache.delete_tags("tag:1")
+        out["delete_match_pattern_reaching_the_reserved_tag_namespace_deletes_the_tag_set"] = await cache.get("b:2") is not None
+        await cache.close()
         return out
 
     return vtime.run(go)
+
+
+def disabled_incr_probe():
+    """a tagged incr while the INCR command is disabled answers None and writes nothing: it must not file the key under the
+    tags either (`set` is guarded by `if _set and tags`).  Otherwise a key that never carried the tag - written later, without
+    tags - is deleted by delete_tags.  Returns None if the later key survives, else a description."""
+    from cashews import Cache, Command
+
+    async def go():
+        cache = Cache()
+        cache.setup("mem://?size=1000&check_interval=0")
+        cache.register_tag("dt", "dk:{i}")
+        await cache.init()
+        cache.disable(Command.INCR)
+        r = await cache.incr("dk:1", tags=["dt"])
+        cache.enable(Command.INCR)
+        await cache.set("dk:1", 5)
+        await cache.delete_tags("dt")
+        got = await cache.get("dk:1", default=None)
+        await cache.close()
+        return r, got
+
+    r, got = vtime.run(go)
+    if r is not None:
+        raise HarnessError(f"a disabled incr answered {r!r}")
+    if got != 5:
+        return {"ops": ["disable INCR", "incr dk:1 tags=[dt] -> None", "enable INCR", "set dk:1 5 (no tags)", "delete_tags dt", "get dk:1"],
+                "observed": repr(got), "expected": "5"}
+    return None
 
 
 def batch_literal() -> int:
